@@ -801,12 +801,23 @@ pub fn main(opts: &Opts, prop: &str) -> Report {
             }
         } else {
             let c = GCase::from_json(&v["replay"]).expect("case");
-            let mut sub = Report::new(prop);
-            let fs = if prop == "C05" { c05_case(&c, &mut sub) } else { c06_case(&c, &mut sub) };
             let p = gen_program(&mut Rng::new(c.prog_seed), c.max_ops, true);
-            for (class, d) in fs {
-                rep.violation(format!("{prop}|{}|{class}", if prop == "C05" { "MTGraph::run" } else { "Graph::run" }), d, c.to_json(&p));
+            // Free-running threads: the same seed is re-run up to 30 times and
+            // the number of recurrences is reported. Graph (C06) is deterministic.
+            let tries = if prop == "C05" { 30 } else { 1 };
+            let mut hits = 0;
+            for _ in 0..tries {
+                let mut sub = Report::new(prop);
+                let fs = if prop == "C05" { c05_case(&c, &mut sub) } else { c06_case(&c, &mut sub) };
+                if !fs.is_empty() {
+                    hits += 1;
+                }
+                for (class, d) in fs {
+                    rep.violation(format!("{prop}|{}|{class}", if prop == "C05" { "MTGraph::run" } else { "Graph::run" }), d, c.to_json(&p));
+                }
             }
+            rep.count("replay_recurrences", hits);
+            rep.count("replay_attempts", tries);
         }
         return rep;
     }
